@@ -1,0 +1,59 @@
+//go:build verif
+
+// Contracts for the deductive verification in /verif (comment-only; compiled code is unaffected).
+package standard
+
+// ---- generation lifecycle (C17): the table s.generations, symbolic clock ----
+
+//@ func (*Service).getGeneration
+//@ requires s != nil && s.generations != nil
+//@ modifies s.generations[account]
+//@ ensures [found] result1 == nil ==> account in s.generations && result0 == s.generations[account] && old(account in s.generations) && result0 == old(s.generations[account])
+//@ ensures [notfound] result1 != nil ==> result1 == ErrNotFound && result0 == nil && !(account in s.generations)
+//@ ensures [absent] !old(account in s.generations) ==> result1 != nil
+//@ ensures [others] forall a string :: a != account ==> ((a in s.generations) <==> old(a in s.generations)) && s.generations[a] == old(s.generations[a])
+
+//@ func (*Service).contribution
+//@ requires generation != nil
+//@ modifies generation.distributionSecrets, mapall(generation.sharedSecrets), mapall(generation.sharedVVecs)
+//@ ensures [ownvec] result == nil ==> generation.id in generation.sharedVVecs && len(generation.sharedVVecs[generation.id]) == generation.threshold && generation.id in generation.sharedSecrets
+//@ ensures [onlyown] forall k uint64 :: k != generation.id ==> ((k in generation.sharedVVecs) <==> old(k in generation.sharedVVecs)) && generation.sharedVVecs[k] == old(generation.sharedVVecs[k]) && ((k in generation.sharedSecrets) <==> old(k in generation.sharedSecrets))
+
+//@ func (*Service).OnPrepare
+//@ requires s != nil && s.generations != nil
+//@ modifies s.generations[account]
+//@ ensures [inprogress] result == ErrInProgress ==> old(account in s.generations) && (account in s.generations) && s.generations[account] == old(s.generations[account])
+//@ ensures [created] result == nil ==> account in s.generations && fresh(s.generations[account]) && s.generations[account].account == account && s.generations[account].threshold == threshold && s.generations[account].participants == participants
+//@ ensures [others] forall a string :: a != account ==> ((a in s.generations) <==> old(a in s.generations)) && s.generations[a] == old(s.generations[a])
+
+//@ func (*Service).OnAbort
+//@ requires s != nil && s.generations != nil
+//@ modifies s.generations[account]
+//@ ensures [gone] result == nil ==> !(account in s.generations)
+//@ ensures [refused] !old(account in s.generations) ==> result == ErrNotInProgress
+//@ ensures [others] forall a string :: a != account ==> ((a in s.generations) <==> old(a in s.generations)) && s.generations[a] == old(s.generations[a])
+
+// ---- contributions (C13, C16): table invariant "every stored verification vector has exactly threshold entries" ----
+
+//@ spec gv(id int, share int, vvec []bls.PublicKey) bool
+//@ spec genInv(g *generation) bool = g != nil && g.sharedSecrets != nil && g.sharedVVecs != nil && g.distributionSecrets != g.sharedSecrets && (forall id uint64 :: id in g.sharedVVecs ==> len(g.sharedVVecs[id]) == g.threshold)
+//@ spec tableInv(s *Service) bool = (forall a string :: a in s.generations ==> genInv(s.generations[a])) && (forall a string, b string :: a != b && a in s.generations && b in s.generations ==> s.generations[a] != s.generations[b] && s.generations[a].sharedVVecs != s.generations[b].sharedVVecs && s.generations[a].sharedSecrets != s.generations[b].sharedSecrets && s.generations[a].sharedSecrets != s.generations[b].distributionSecrets)
+
+//@ func verifyContribution
+//@ ensures [verified] result ==> gv(id, secretShare, vVec)
+
+//@ func (*Service).OnContribute
+//@ requires s != nil && s.generations != nil
+//@ requires [geninv] tableInv(s)
+//@ modifies s.generations[account], mapall(s.generations[account].sharedSecrets), mapall(s.generations[account].sharedVVecs)
+//@ ensures [geninv] tableInv(s)
+//@ ensures [stored-in] result2 == nil ==> account in s.generations
+//@ ensures [stored-gv] result2 == nil ==> gv(s.generations[account].id, secret, vVec)
+//@ ensures [stored-len] result2 == nil ==> len(vVec) == s.generations[account].threshold
+//@ ensures [stored-vec] result2 == nil ==> s.generations[account].sharedVVecs[senderID] == vVec && senderID in s.generations[account].sharedVVecs && senderID in s.generations[account].sharedSecrets
+//@ ensures [refused] result2 != nil && old(account in s.generations) && account in s.generations ==> (forall k uint64 :: ((k in s.generations[account].sharedVVecs) <==> old(k in s.generations[account].sharedVVecs)) && s.generations[account].sharedVVecs[k] == old(s.generations[account].sharedVVecs[k]) && ((k in s.generations[account].sharedSecrets) <==> old(k in s.generations[account].sharedSecrets)))
+//@ ensures [owner] result2 == nil ==> result0 == old(s.generations[account].distributionSecrets[senderID])
+//@ ensures [ownvec] result2 == nil ==> result1 == s.generations[account].sharedVVecs[s.generations[account].id]
+//@ ensures [notinprogress] !old(account in s.generations) ==> result2 != nil
+//@ ensures [others] forall a string :: a != account ==> ((a in s.generations) <==> old(a in s.generations)) && s.generations[a] == old(s.generations[a])
+//@ hint-after getGeneration@1 [ginv] result1 == nil ==> genInv(result0)
